@@ -144,3 +144,67 @@ def compare_progs(run, stream, cases, project=None):
                          b if len(str(b)) < 3000 else {"k": b.get("k"), "note": "large"}, "assembly differs: " + what)
         out.append((c, im, rep))
     return out
+
+
+# ------------------------------------------------------------------ asm.value: the string-level cascade on its own
+
+VALUE_ALPHA = "019AFGXa$#<>%',+-*/@_[] ;"
+
+
+def value_cases(rnd, n_random, exhaustive_len):
+    """every string over VALUE_ALPHA up to `exhaustive_len` characters, plus structured random values (numbers in every spelling,
+    symbols, two-term expressions, left,right pairs, delimited strings and near misses of each)"""
+    import itertools
+    out = []
+    for k in range(0, exhaustive_len + 1):
+        for t in itertools.product(VALUE_ALPHA, repeat=k):
+            out.append("".join(t))
+    atoms = ["0", "1", "9", "10", "255", "256", "65535", "65536", "99999", "-1", "-128", "-129", "-32768", "-32769", "$0", "$F", "$FF", "$100", "$0100",
+             "$FFFF", "$10000", "$G", "%1", "%01010101", "%0101010101010101", "%2", "%010101011", "'A", "'", "'AB", "A", "AB", "A_B", "@A", "A@", "_", "9A",
+             "A9", "a", "X", "PCR", "", " ", "A B"]
+    for _ in range(n_random):
+        k = rnd.randrange(8)
+        a, b = rnd.choice(atoms), rnd.choice(atoms)
+        if k == 0:
+            s = a
+        elif k == 1:
+            s = rnd.choice("#<>") + a
+        elif k == 2:
+            s = a + rnd.choice("+-*/") + b
+        elif k == 3:
+            s = rnd.choice(["#", "<", ">", ""]) + a + rnd.choice("+-*/") + b
+        elif k == 4:
+            s = a + "," + b
+        elif k == 5:
+            d = rnd.choice("\"'/")
+            s = d + a + b + rnd.choice([d, "", d + d])
+        elif k == 6:
+            s = a + rnd.choice("+-*/,") + b + rnd.choice("+-*/,") + a
+        else:
+            s = "".join(rnd.choice(VALUE_ALPHA) for _ in range(rnd.randrange(1, 9)))
+        out.append(s)
+    return out
+
+
+def run_values(run, rnd, n_random, exhaustive_len, stream="asm.value"):
+    """Value.create_from_str vs Asm.create on the same strings under the four flag combinations that occur"""
+    cases = value_cases(rnd, n_random, exhaustive_len)
+    reqs, impls = [], []
+    for s in cases:
+        for is_str, is16, def_ext in ((False, False, True), (False, True, True), (False, False, False), (True, False, True)):
+            if (is_str or not def_ext or is16) and len(s) <= exhaustive_len and rnd.random() < 0.5:
+                continue
+            impls.append(impl_value(s, is_str, is16, def_ext))
+            reqs.append({"op": "asm.value", "id": len(reqs), "s": s, "isStr": is_str, "is16": is16, "defExt": def_ext})
+    reps = drive(reqs)
+    for rq, im, rep in zip(reqs, impls, reps):
+        mo = {"k": rep.get("k")}
+        if rep.get("k") == "ok":
+            mo["v"] = rep.get("v")
+        a = dict(im)
+        if a.get("k") == "ok" and a["v"].startswith("NUMERIC"):
+            a["v"] = a["v"].replace("neg=true", "neg=true").replace("neg=false", "neg=false")
+        run.case(stream, {"s": rq["s"], "flags": [rq["isStr"], rq["is16"], rq["defExt"]]}, [a.get("k"), (a.get("v") or "")[:12]], nontrivial=True, sample_every=4999)
+        run.dist["value." + str(a.get("k")) + "." + ((a.get("v") or "").split(" ")[0])] += 1
+        if a != mo:
+            run.disagree(stream, {"s": rq["s"], "isStr": rq["isStr"], "is16": rq["is16"], "defExt": rq["defExt"]}, a, mo, "create_from_str differs")
